@@ -113,6 +113,22 @@ def c19 (args res : List String) : Verdict :=
         let impl := s!"manager={get "manager"} held={get "held"} later={get "later"}"
         if model = impl then vOk tag else vDiff "respawn" model tag
     | _, _ => vBad (joinToks args)
+  | ["accept"] =>
+    -- connections made *to* the real Session (its listener): nothing is written before the peer's handshake, a foreign
+    -- info-hash is answered with nothing, a valid handshake with the client's own (BEP 3 layout from the wire model)
+    let get (key : String) : String := (res.filterMap fun t => if t.startsWith (key ++ "=") then some ((t.drop (key.length + 1)).toString) else none).headD "?"
+    if res.head? = some "spawn-failed" ∨ res.head? = some "child-failed" then vBad ("accept harness could not run: " ++ joinToks res)
+    else if get "good" ≠ "1" ∨ get "contacted" ≠ "11" then vBad ("accept scenario not set up: " ++ joinToks res)
+    else
+      let ownId : Bytes := "-VERIF-0000000000001".toUTF8.toList
+      let expected : String := match parseHex (get "hash") with
+        | some h => "pre0-post" ++ toHex (Rdest.Wire.encode (.handshake h ownId))
+        | none => "?"
+      if !((get "plain").startsWith "pre0-") ∨ !((get "cand").startsWith "pre0-") then
+        vProp "P08-incoming-connection-written-to-before-its-handshake" "accept"
+      else if get "plain" ≠ "pre0-postx" then vProp "P08-foreign-info-hash-answered" "accept"
+      else if get "cand" ≠ expected then vDiff "accept-valid-handshake-reply" expected "accept"
+      else vOk "accept"
   | ["e2e", kS, _, nS] =>
     match kS.toNat?, nS.toNat? with
     | some k, some n =>
